@@ -281,6 +281,28 @@ def cases_pairs(tier):
     return out
 
 
+def cases_flagpairs(tier):
+    """every leaf paired with each of the two mode flags set to its NON-default value (developer_mode / silent_developer_mode):
+    the flags are ordinary public fields, so `silent_developer_mode=True` alone - or any flag value other than an explicit
+    developer_mode=True - must not open the lock.  (A sub-space of `pairs`, cheap enough for the quick tier.)"""
+    out = []
+    for target in ("DailySettings", "DailyLegacySettings", "BillingSettings"):
+        specs = {d: s for d, s in field_specs(target).items() if s["kind"] != "settings"
+                 and d in table()["families"][TARGETS[target][1]]["fields"]}
+        for flag in ("silent_developer_mode",):
+            if flag not in specs:
+                continue
+            for b in specs:
+                if b in ("developer_mode", "silent_developer_mode"):
+                    continue
+                for lb, vb in _pair_values(target, b):
+                    for form, sp in PAIR_FORMS[target]:
+                        out.append({"space": "flagpairs", "target": target, "form": form, "spelling": sp,
+                                    "overrides": [{"path": [flag], "label": "true", "value": sr.enc(True)},
+                                                  {"path": b.split("."), "label": lb, "value": sr.enc(vb)}]})
+    return out
+
+
 def cases_defaults(tier):
     out = [{"space": "defaults", "what": "declarations"}]
     for fam in table()["families"]:
@@ -821,7 +843,7 @@ def run_stored(case):
 # =============================================================================== dispatch
 def run_case(case):
     sp = case["space"]
-    if sp in ("single", "cluster", "pairs"):
+    if sp in ("single", "cluster", "pairs", "flagpairs"):
         return run_overrides(case)
     if sp == "defaults":
         return run_defaults(case)
@@ -838,7 +860,7 @@ def run(tier, seed):
     env.setup_env()
     env.quiet_library()
     spaces = [("defaults", cases_defaults), ("single", cases_single), ("cluster", cases_cluster),
-              ("assign", cases_assign), ("stored", cases_stored)]
+              ("assign", cases_assign), ("stored", cases_stored), ("flagpairs", cases_flagpairs)]
     if tier == "thorough":
         spaces.append(("pairs", cases_pairs))
     exps = []
